@@ -72,6 +72,9 @@ def real_case(case):
     neighbour = case[5] if len(case) > 5 else None
     text, A, k0, exo, funcs = BLOCKS[name]
     full = text + '\nErr_Tolerance = %r\nMaxTime = %d' % (tol, maxtime)
+    if neighbour == 'tolerance-set-later':
+        # the block states a loose tolerance; the tolerance in force (tol) is set on the solver object AFTER the block was parsed (constructor form)
+        full = text + '\nErr_Tolerance = 0.25\nMaxTime = %d' % (maxtime,)
     D = Driver(timeout_ms=15000, max_paths=60000, max_seconds=BUDGET[0])
     box = 100
     syms = {}
@@ -106,6 +109,8 @@ def real_case(case):
     def path():
         es = EquationSolver(full, run_equation_reduction=reduce)
         es.MaxIterations = cap
+        if neighbour == 'tolerance-set-later':
+            es.ParameterErrorTolerance = tol
         for fname, fobj in funcs.items():
             es.AddFunction(fname, fobj)
         for nme in exo:
@@ -219,6 +224,9 @@ def real_cases(tier):
         out.append((name, 1e-2, 2, True, 2 if name in ('one-affine', 'lagged') else 1, 'neighbour'))
         if tier == 'thorough':
             out.append((name, 1e-2, 3, False if name not in ('deco-tree', 'negated-alias') else True, 1, 'neighbour'))
+    # the tolerance in force set on the solver object after the block (which states a looser one) was parsed
+    for name in ('one-affine', 'lagged', 'two-coupled'):
+        out.append((name, 1e-2, 4 if name != 'two-coupled' else 3, True, 1, 'tolerance-set-later'))
     # the same solve with step tracing switched on for the last of two periods (the exogenous value moves between them)
     for name in ('deco-dependent-first', 'deco-tree', 'lagged') + (('alias-chain', 'two-coupled', 'user-function') if tier == 'thorough' else ()):
         out.append((name, 1e-2, 2, True, 2, 'trace'))
@@ -237,7 +245,9 @@ neighbour = case[5] if len(case) > 5 else None
 vals = {k: float(F(v)) for k, v in %(vals)r.items()}
 text, A, k0, exo, funcs = BLOCKS[name]
 full = text + '\\nErr_Tolerance = %%r\\nMaxTime = %%d' %% (tol, maxtime)
+if neighbour == 'tolerance-set-later': full = text + '\\nErr_Tolerance = 0.25\\nMaxTime = %%d' %% (maxtime,)
 es = EquationSolver(full, run_equation_reduction=reduce); es.MaxIterations = cap
+if neighbour == 'tolerance-set-later': es.ParameterErrorTolerance = tol
 for f, o in funcs.items(): es.AddFunction(f, o)
 for n in exo: es.Parser.Exogenous.append((n, [0.0] + [vals['%%s@%%d' %% (n, k)] for k in range(1, maxtime + 1)]))
 es.ExtractVariableList(); es.SetInitialConditions()
@@ -440,7 +450,7 @@ def run(tier, seed):
         chk.count('forks', o['forks'])
         chk.solver_s += o['solver_s']
         chk.queries += o['queries']
-        what = 'real: block %s tol=%g cap=%d reduction=%s periods=%d' % tuple(o['case'][:5]) + ({'neighbour': ' with a same-named neighbour solver solved before every period', 'trace': ' with step tracing of the last period'}[o['case'][5]] if len(o['case']) > 5 else '')
+        what = 'real: block %s tol=%g cap=%d reduction=%s periods=%d' % tuple(o['case'][:5]) + ({'neighbour': ' with a same-named neighbour solver solved before every period', 'trace': ' with step tracing of the last period', 'tolerance-set-later': ' with the tolerance set on the solver after a block stating 0.25 was parsed'}[o['case'][5]] if len(o['case']) > 5 else '')
         if not o['exhaustive'] or o['unknown'] or o['dunknown']:
             chk.ob('unknown', what + ' (paths %d, unknown %d)' % (o['paths'], o['unknown'] + o['dunknown']))
             if o.get('cut_paths') and not o['viol']:
